@@ -104,9 +104,14 @@ def bound_rows(F, R, f):
                             guard = i["cond"]
                     g_ok = False
                     if guard is not None:
-                        gl = free_locals(guard)
-                        gt = sexp(guard)
-                        g_ok = gl == rhs_ids and "!=" in gt and (("NEG_INFINITY" in gt or "0.0" in gt) if rhs_role == "min" else ("INFINITY" in gt and "NEG_INFINITY" not in gt))
+                        # exactly `<end-point> != <its default/infinite value>`: any extra conjunct would drop
+                        # a needed bound row (e.g. `min != 0.0` for a Real variable, whose split halves do
+                        # not keep x >= 0)
+                        gs = strip(guard)
+                        if gs.get("k") == "Binary" and gs["op"] == "!=" and free_locals(gs["a"]) == rhs_ids and not free_locals(gs["b"]):
+                            cst = sexp(strip(gs["b"])).rsplit("::", 1)[-1]
+                            want_c = ("NEG_INFINITY" if v == "Real" else "0.0") if rhs_role == "min" else "INFINITY"
+                            g_ok = cst == want_c
                     R.ob("T-BOUNDROWS", "%s:%s-row" % (v, rhs_role), want_cmp is not None and cmpv == want_cmp and g_ok, F.loc(f, row),
                          "bound row `%s` : a finite %s must give a %s row guarded by its own finiteness test (guard: %s)" % (sexp(row), rhs_role, want_cmp, sexp(guard) if guard else None))
                 # unit coefficient at the variable's own index
